@@ -21,6 +21,11 @@ namespace vf {
 using namespace c09;
 
 const char* property_id() { return "C09"; }
+// "huge" states: a count of b in [1000,1024] doubled d in {22,23} times by merging a sketch with a copy of itself lands
+// just below 2^32 (b*2^22 < 2^32 for b < 1024), exactly on it (b = 1024, d = 22) or above it (d = 23): a 32-bit
+// accumulator anywhere in the (de)serialisation code wraps
+static inline uint64_t huge_base(vf::Rng& r) { return r.chance(0.2) ? 1024 : static_cast<uint64_t>(r.range(1000, 1023)); }
+static inline unsigned huge_doublings(vf::Rng& r) { return r.chance(0.4) ? 22 : 23; }
 unsigned case_timeout_s() { return 120; }
 uint64_t num_cases(bool thorough) { return C09_S == 2 ? (thorough ? 50000 : 2500) : (thorough ? 20000 : 1000); }
 void final_report() {}
@@ -80,11 +85,12 @@ static void case_varopt(Rng& r) {
   const std::string fam = std::string("varopt<") + SItem<T>::name() + ">";
   const uint32_t k = static_cast<uint32_t>(r.chance(0.2) ? r.range(1, 3) : r.range(4, 40));
   const resize_factor rf = static_cast<resize_factor>(r.below(4));
-  const unsigned cls = static_cast<unsigned>(r.below(8));
+  const unsigned cls = static_cast<unsigned>(r.below(9));
   uint64_t n = 0; const char* desc = "";
   switch (cls) {
     case 0: n = 0; desc = "empty"; break;
     case 1: n = 1; desc = "single"; break;
+    case 8: n = huge_base(r); desc = "huge-n"; break;
     case 2: n = 1 + r.below(k); desc = "warmup"; break;              // r == 0: exact
     case 3: n = k; desc = "warmup-full"; break;
     case 4: n = k + 1 + r.below(3); desc = "just-sampling"; break;
@@ -95,6 +101,13 @@ static void case_varopt(Rng& r) {
   pin_random(r.next());
   std::unique_ptr<S> sk(new S(k, rf));
   vo_fill(*sk, n, r, cls == 7 ? 2 : (r.chance(0.2) ? 1 : 0));
+  if (cls == 8) {
+    // n beyond 2^32: union of the sketch with itself, resolved, repeatedly
+    const unsigned d = huge_doublings(r);
+    for (unsigned i = 0; i < d; ++i) { var_opt_union<T> u(k); u.update(*sk); u.update(*sk); *sk = u.get_result(); }
+    n = sk->get_n();
+    count(n >> 32 ? "varopt_n_at_or_above_2^32" : "varopt_n_just_below_2^32");
+  }
   describe(fam + " k=" + std::to_string(k) + " rf=" + std::to_string(static_cast<int>(rf)) + " " + desc + " n=" + std::to_string(n));
   count(fam + "_" + desc);
   sig(mix64(mix64(k, sk->get_n()), mix64(sk->get_num_samples(), std::hash<std::string>()(fam) + cls)));
@@ -143,6 +156,13 @@ static void case_varopt_union(Rng& r) {
   pin_random(r.next());
   std::unique_ptr<S> sk(new S(max_k));
   vou_feed(*sk, inputs, r);
+  if (r.chance(0.12)) {
+    var_opt_sketch<T> big(max_k); vo_fill(big, huge_base(r), r, 0);
+    const unsigned d = huge_doublings(r) - 1;
+    for (unsigned i = 0; i < d; ++i) { var_opt_union<T> u(max_k); u.update(big); u.update(big); big = u.get_result(); }
+    sk->update(big); sk->update(big);
+    count(sk->get_result().get_n() >> 32 ? "varopt_union_n_at_or_above_2^32" : "varopt_union_n_just_below_2^32");
+  }
   describe(fam + " max_k=" + std::to_string(max_k) + " inputs=" + std::to_string(inputs));
   const auto res0 = sk->get_result();
   count(fam + (inputs == 0 ? "_empty" : (res0.get_n() > res0.get_num_samples() ? "_estimation" : "_exact")));
@@ -190,11 +210,12 @@ static void case_ebpps(Rng& r) {
   typedef typename SItem<T>::SerDe SD;
   const std::string fam = std::string("ebpps<") + SItem<T>::name() + ">";
   const uint32_t k = static_cast<uint32_t>(r.chance(0.2) ? r.range(1, 2) : r.range(3, 30));
-  const unsigned cls = static_cast<unsigned>(r.below(7));
+  const unsigned cls = static_cast<unsigned>(r.below(8));
   uint64_t n = 0; const char* desc = "";
   switch (cls) {
     case 0: n = 0; desc = "empty"; break;
     case 1: n = 1; desc = "single"; break;
+    case 7: n = huge_base(r); desc = "huge-n"; break;
     case 2: n = 1 + r.below(k); desc = "filling"; break;
     case 3: n = k + r.below(3); desc = "boundary"; break;
     case 4: n = k + 1 + r.below(30 * k); desc = "sampling"; break;
@@ -204,7 +225,13 @@ static void case_ebpps(Rng& r) {
   pin_random(r.next());
   std::unique_ptr<S> sk(new S(k));
   if (cls <= 5) eb_fill(*sk, n, r, cls == 5);
-  else {
+  else if (cls == 7) {
+    eb_fill(*sk, n, r, r.coin());
+    const unsigned d = huge_doublings(r);
+    for (unsigned i = 0; i < d; ++i) { S copy(*sk); sk->merge(copy); }
+    n = sk->get_n();
+    count(n >> 32 ? "ebpps_n_at_or_above_2^32" : "ebpps_n_just_below_2^32");
+  } else {
     eb_fill(*sk, r.below(10 * k), r, false);
     S other(static_cast<uint32_t>(r.range(1, 30))); eb_fill(other, r.below(10 * k), r, r.coin());
     sk->merge(other);
@@ -306,9 +333,10 @@ static void case_tdigest(Rng& r) {
   describe(std::string(TdName<T>::name()) + " (generating state)");
   typedef tdigest<T> S;
   const std::string base = TdName<T>::name();
-  const uint16_t k = static_cast<uint16_t>(r.chance(0.7) ? r.range(10, 30) : r.range(31, 200));
-  const unsigned cls = static_cast<unsigned>(r.below(9));
-  const int shape = static_cast<int>(r.below(4));
+  const unsigned cls = static_cast<unsigned>(r.below(10));
+  // (huge-weight: k >= 100 so that no single centroid of tdigest<float>, whose centroid weights are 32 bit, reaches 2^32)
+  const uint16_t k = static_cast<uint16_t>(cls == 8 ? r.range(100, 200) : (r.chance(0.7) ? r.range(10, 30) : r.range(31, 200)));
+  const int shape = cls == 8 ? static_cast<int>(r.pick({0, 1, 3})) : static_cast<int>(r.below(4));
   // the unmerged buffer holds up to 4k values before it is folded into the centroids
   uint64_t n = 0; const char* desc = ""; bool compress_after = false;
   switch (cls) {
@@ -320,11 +348,19 @@ static void case_tdigest(Rng& r) {
     case 5: n = 5 * k + r.below(20 * k); desc = "centroids-and-buffer"; break;
     case 6: n = 5 * k + r.below(20 * k); compress_after = true; desc = "centroids-only"; break;
     case 7: n = 50 * k + r.below(100 * k); desc = "deep"; break;
+    case 8: n = huge_base(r); desc = "huge-weight"; break;
     default: desc = "post-merge"; break;
   }
   std::unique_ptr<S> sk(new S(k));
   if (cls <= 7) td_fill(*sk, n, r, shape);
-  else {
+  else if (cls == 8) {
+    td_fill(*sk, n, r, shape);
+    const unsigned d = huge_doublings(r);
+    for (unsigned i = 0; i < d; ++i) { S copy(*sk); sk->merge(copy); }
+    if (r.chance(0.5)) td_fill(*sk, r.below(2 * k), r, shape);      // some values waiting in the buffer on top
+    n = sk->get_total_weight();
+    count(base + (n >> 32 ? "_weight_at_or_above_2^32" : "_weight_just_below_2^32"));
+  } else {
     td_fill(*sk, r.below(12 * k), r, shape);
     S other(static_cast<uint16_t>(r.chance(0.5) ? k : r.range(10, 100))); td_fill(other, r.below(12 * k), r, static_cast<int>(r.below(4)));
     sk->merge(other);
@@ -342,7 +378,7 @@ static void case_tdigest(Rng& r) {
     S work(*sk);
     // classify by the image actually produced: does it carry buffered values?
     Ops<S> o;
-    o.fam = base + (with_buffer ? "|with-buffer" : "|without-buffer");
+    o.fam = base + (with_buffer ? "|with-buffer" : "|without-buffer") + (cls == 8 ? "|huge-weight" : "");
     // state class of its own: exactly one value, still waiting in the buffer (as printed by the library)
     if (with_buffer && work.get_total_weight() == 1) {
       const auto t = work.to_string(false);
@@ -409,11 +445,12 @@ static void case_density(Rng& r) {
   const std::string fam = DnName<T>::name();
   const uint16_t k = static_cast<uint16_t>(r.range(2, 12));
   const uint32_t dim = static_cast<uint32_t>(r.range(1, 4));
-  const unsigned cls = static_cast<unsigned>(r.below(7));
+  const unsigned cls = static_cast<unsigned>(r.below(8));
   uint64_t n = 0; const char* desc = "";
   switch (cls) {
     case 0: n = 0; desc = "empty"; break;
     case 1: n = 1; desc = "single"; break;
+    case 7: n = huge_base(r); desc = "huge-n"; break;
     case 2: n = 1 + r.below(k); desc = "exact"; break;
     case 3: n = k + r.below(k + 2); desc = "compaction-boundary"; break;
     case 4: n = 2 * k + r.below(30 * k); desc = "estimation"; break;
@@ -423,7 +460,13 @@ static void case_density(Rng& r) {
   pin_random(r.next());
   std::unique_ptr<S> sk(new S(k, dim));
   if (cls <= 5) dn_fill(*sk, n, r);
-  else { dn_fill(*sk, r.below(20 * k), r); S other(k, dim); dn_fill(other, r.below(20 * k), r); sk->merge(other); n = sk->get_n(); }
+  else if (cls == 7) {
+    dn_fill(*sk, n, r);
+    const unsigned d = huge_doublings(r);
+    for (unsigned i = 0; i < d; ++i) { S copy(*sk); sk->merge(copy); }
+    n = sk->get_n();
+    count(n >> 32 ? "density_n_at_or_above_2^32" : "density_n_just_below_2^32");
+  } else { dn_fill(*sk, r.below(20 * k), r); S other(k, dim); dn_fill(other, r.below(20 * k), r); sk->merge(other); n = sk->get_n(); }
   describe(fam + " k=" + std::to_string(k) + " dim=" + std::to_string(dim) + " " + desc + " n=" + std::to_string(n));
   count(fam + "_" + desc);
   sig(mix64(mix64(k, dim), mix64(sk->get_n(), sk->get_num_retained() + std::hash<std::string>()(fam))));
